@@ -173,6 +173,13 @@ def refineElems (nv : Nat) (els : List Tri) : List Tri :=
   (els.zip (elementEdges els)).flatMap fun p =>
     children GridConsts.refineChildren p.1 (p.2.1 + nv, p.2.2.1 + nv, p.2.2.2 + nv) 0
 
+/-- `np.repeat(domain_indices, k)` -/
+def repeatEach (k : Nat) (l : List Nat) : List Nat := l.flatMap (List.replicate k)
+
+/-- domain indices of `Grid.refine` / of the barycentric refinement -/
+def refineDoms (doms : List Nat) : List Nat := repeatEach GridConsts.refineRepeat doms
+def baryDoms (doms : List Nat) : List Nat := repeatEach GridConsts.baryRepeat doms
+
 /-- what each new vertex of the barycentric refinement is: the barycentre of an element or the midpoint of an edge -/
 inductive BaryVertex
   | centre (elem : Nat)
